@@ -21,7 +21,7 @@ func vMgrLockFree(m *Manager) bool {
 
 // TCP connections (RFC 6062): ids unique, single use, owner only, 30 s deadline, lock released on every path.
 //
-//verif:props=C16,C18,C15 bounds="one manager, one TCP allocation, two Connect targets (IPv4, all ports), arbitrary 64-bit random values"
+//verif:props=C16,C18,C15,C09 bounds="one manager, one TCP allocation, two Connect targets (first IPv4, second in 4-byte or 16-byte form incl. IPv4-mapped; all ports), arbitrary 64-bit random values"
 func VerifHarness_C16_connect_twice() {
 	env := VNewManager(true, false)
 	m := env.M
@@ -30,7 +30,7 @@ func VerifHarness_C16_connect_twice() {
 	a, err := m.CreateAllocation(ft, &VPacketConn{Name: "turn"}, proto.ProtoTCP, 0, 600*time.Second, user, "realm", proto.RequestedFamilyIPv4)
 	vAssume(err == nil)
 	p1 := proto.PeerAddress{IP: VIP4(), Port: VPort()}
-	p2 := proto.PeerAddress{IP: VIP4(), Port: VPort()}
+	p2 := proto.PeerAddress{IP: VIP(), Port: VPort()} // 4-byte or 16-byte form (::ffff:a.b.c.d names the same peer)
 	id1, e1 := m.CreateTCPConnection(a, p1)
 	vAssert(vMgrLockFree(m), "C18.lock_released_after_connect")
 	vAssert(vMgrLockFree(m), "C16.lock_released_after_connect")
@@ -42,6 +42,7 @@ func VerifHarness_C16_connect_twice() {
 	id2, e2 := m.CreateTCPConnection(a, p2)
 	vAssert(vMgrLockFree(m), "C18.lock_released_after_second_connect")
 	vAssert(vMgrLockFree(m), "C16.server_keeps_serving_after_duplicate_connect")
+	vAssert(vMgrLockFree(m), "C09.duplicate_connect_does_not_wedge_the_manager")
 	same := vAnd(p1.Port == p2.Port, vIPEq(p1.IP, p2.IP))
 	vAssertIf(vAnd(e1 == nil, same), e2 == ErrDupeTCPConnection, "C16.second_connect_to_same_peer_is_446")
 	vAssertIf(vAnd(e1 == nil, e2 == nil), id1 != id2, "C16.connection_ids_unique")
@@ -64,6 +65,7 @@ func VerifHarness_C16_connect_twice() {
 	}
 	vAssert(inTable == len(a.tcpConnections), "C16.every_id_refers_to_a_real_connection")
 	vCover(e2 == ErrDupeTCPConnection, "C16.cover_duplicate")
+	vCover(vAnd(e2 == ErrDupeTCPConnection, len(p2.IP) == 16), "C16.cover_duplicate_named_in_mapped_form")
 	vCover(vAnd(e1 == nil, e2 == nil), "C16.cover_two_connections")
 	vReach("end")
 }
@@ -95,6 +97,7 @@ func VerifHarness_C16_bind_once() {
 		got := m.GetTCPConnection(who, other)
 		ok := vAnd(other == id, who == u1)
 		vAssert((got != nil) == ok, "C16.bind_succeeds_iff_right_id_and_owner")
+		vAssertIf(!ok, vTimerArmed(tc.bindTimer), "C16.refused_bind_keeps_the_30s_deadline_running")
 		vAssert(vMgrLockFree(m), "C18.lock_released_after_bind")
 		again := m.GetTCPConnection(u1, id)
 		vAssertIf(ok, again == nil, "C16.connection_binds_only_once")
@@ -212,8 +215,36 @@ func VerifHarness_C04_connect_same_peer_from_two_allocations() {
 	idB, eB := m.CreateTCPConnection(b, peer)
 	vAssert(eA == nil, "C16.connect_succeeds")
 	vAssert(eB != ErrDupeTCPConnection, "C04.another_clients_connection_does_not_block_this_clients_connect") // (a random id collision is a different, legitimate error)
-	vAssertIf(vAnd(eA == nil, eB == nil), idA != idB, "C16.connection_ids_unique_across_allocations")
+	_, _ = idA, idB
 	vAssert(vLocksHeld() == 0, "C18.connect_leaves_no_lock_held")
+	vReach("end")
+}
+
+// Connection ids are unique across the whole manager (ConnectionBind and removal look ids up manager-wide),
+// whatever the random source draws. The counterexample needs a repeated 32-bit draw, which a native run
+// cannot force: reported on the solver model.
+//
+//verif:props=C16,C04 replay=model bounds="two TCP allocations on distinct 5-tuples; Connect to two arbitrary IPv4 peers; arbitrary random draws (in particular equal ones)"
+func VerifHarness_C16_ids_unique_across_allocations() {
+	env := VNewManager(false, false)
+	m := env.M
+	ftA, ftB := VFiveTuple(), VFiveTuple()
+	vAssume(ftA.Fingerprint() != ftB.Fingerprint())
+	a, err := m.CreateAllocation(ftA, &VPacketConn{Name: "turnA"}, proto.ProtoTCP, 0, 600*time.Second, "u1", "realm", proto.RequestedFamilyIPv4)
+	vAssume(err == nil)
+	b, err := m.CreateAllocation(ftB, &VPacketConn{Name: "turnB"}, proto.ProtoTCP, 0, 600*time.Second, "u2", "realm", proto.RequestedFamilyIPv4)
+	vAssume(err == nil)
+	pA := proto.PeerAddress{IP: VIP4(), Port: VPort()}
+	pB := proto.PeerAddress{IP: VIP4(), Port: VPort()}
+	idA, eA := m.CreateTCPConnection(a, pA)
+	idB, eB := m.CreateTCPConnection(b, pB)
+	vAssertIf(vAnd(eA == nil, eB == nil), idA != idB, "C16.connection_ids_unique_across_allocations")
+	if eA == nil && eB == nil {
+		// ending one client's connection leaves the other client's alone
+		m.RemoveTCPConnection(idA)
+		vAssert(b.VHasTCPConn(idB), "C04.removing_a_connection_leaves_other_allocations_connections")
+		vAssert(!a.VHasTCPConn(idA), "C16.removed_connection_is_gone")
+	}
 	vReach("end")
 }
 
